@@ -373,10 +373,21 @@ fn unwind_j(u: &mir::UnwindAction) -> J {
     }
 }
 
-fn body_j<'tcx>(tcx: TyCtxt<'tcx>, did: LocalDefId, body: &Body<'tcx>) -> J {
+fn body_j<'tcx>(tcx: TyCtxt<'tcx>, did: LocalDefId, body: &Body<'tcx>, promoted: Option<usize>) -> J {
     let tenv = ty::TypingEnv::post_analysis(tcx, did);
     let def_id = did.to_def_id();
     let kind = tcx.def_kind(def_id);
+    if let Some(pi) = promoted {
+        // a promoted constant of `did`: emitted as a tiny body of its own so that `&CONST` operands can be evaluated
+        let mut o = vec![
+            ("path", J::S(format!("{}::{{promoted#{}}}", tcx.def_path_str(def_id), pi))),
+            ("kind", J::S("Promoted".into())),
+            ("span", span_j(tcx, body.span)),
+            ("arg_count", J::I(0)),
+        ];
+        body_rest(tcx, tenv, body, &mut o);
+        return J::O(o);
+    }
     let mut o = vec![
         ("path", J::S(tcx.def_path_str(def_id))),
         ("kind", J::S(format!("{:?}", kind))),
@@ -398,6 +409,20 @@ fn body_j<'tcx>(tcx: TyCtxt<'tcx>, did: LocalDefId, body: &Body<'tcx>) -> J {
         let sig = tcx.fn_sig(def_id).instantiate_identity().skip_norm_wip();
         o.push(("sig", J::S(format!("{}", sig))));
         o.push(("ret_ty", ty_s(sig.skip_binder().output())));
+        // names of all generic parameters (parent impl first, then own), in the order of a call's generic arguments
+        let mut gen_names: Vec<J> = Vec::new();
+        let mut stack = Vec::new();
+        let mut cur = Some(tcx.generics_of(def_id));
+        while let Some(g) = cur {
+            stack.push(g);
+            cur = g.parent.map(|p| tcx.generics_of(p));
+        }
+        for g in stack.iter().rev() {
+            for p in &g.own_params {
+                gen_names.push(J::S(p.name.to_string()));
+            }
+        }
+        o.push(("generics", J::A(gen_names)));
     }
     if let Some(parent) = tcx.opt_parent(def_id) {
         o.push(("parent", J::S(tcx.def_path_str(parent))));
@@ -422,6 +447,16 @@ fn body_j<'tcx>(tcx: TyCtxt<'tcx>, did: LocalDefId, body: &Body<'tcx>) -> J {
             _ => {}
         }
     }
+    body_rest(tcx, tenv, body, &mut o);
+    J::O(o)
+}
+
+fn body_rest<'tcx>(
+    tcx: TyCtxt<'tcx>,
+    tenv: ty::TypingEnv<'tcx>,
+    body: &Body<'tcx>,
+    o: &mut Vec<(&'static str, J)>,
+) {
     // locals
     let mut names: Vec<Option<String>> = vec![None; body.local_decls.len()];
     let mut dbg = Vec::new();
@@ -563,7 +598,6 @@ fn body_j<'tcx>(tcx: TyCtxt<'tcx>, did: LocalDefId, body: &Body<'tcx>) -> J {
         ]));
     }
     o.push(("blocks", J::A(blocks)));
-    J::O(o)
 }
 
 fn dump_crate(tcx: TyCtxt<'_>, is_test: bool) -> J {
@@ -583,7 +617,10 @@ fn dump_crate(tcx: TyCtxt<'_>, is_test: bool) -> J {
             continue;
         }
         let body = tcx.optimized_mir(did);
-        bodies.push(body_j(tcx, did, body));
+        bodies.push(body_j(tcx, did, body, None));
+        for (pi, pbody) in tcx.promoted_mir(did).iter_enumerated() {
+            bodies.push(body_j(tcx, did, pbody, Some(pi.as_usize())));
+        }
     }
     let mut adts = Vec::new();
     let mut impls = Vec::new();
